@@ -36,6 +36,13 @@ Ev(a) == l <= Len(Tr) /\ Tr[l].a = a /\ l' = l + 1 /\ UNCHANGED tid
 
 Started == { e \in Entry : vrun[e] = 0 /\ vrun'[e] # 0 }
 InFlight == IF "x" \in DOMAIN Tr[l] THEN SeqToSet(Tr[l].x) ELSE {}
+\* A packet handed over in the SAME loop iteration in which lifetime timers are due (the packet's callback first, the
+\* timer handles behind it in the ready queue) is recorded as two events, RecvData marked "hidden" + Fire: nothing can be
+\* observed between the two, so the hidden step is constrained only by the specification's action and the Fire step
+\* carries the observation.  Whether the validator of an Interest that is answered and times out in that iteration was
+\* still called is left open (the awaiting coroutine may be woken by the answer or by the timer).
+Hidden == "hidden" \in DOMAIN Tr[l]
+AfterHidden == IF l > 1 /\ "hidden" \in DOMAIN Tr[l - 1] THEN { e \in Entry : vrun[e] # 0 } ELSE {}
 PostOk == LET p == Tr[l].post IN
   /\ p.bg = 0
   /\ now' = p.now
@@ -46,12 +53,13 @@ PostOk == LET p == Tr[l].post IN
   \* validators start exactly for the Interests the packet satisfies; for an Interest whose cancellation is in flight
   \* (Tr[l].x) the statement says nothing about a validator call, so one is tolerated
   /\ Started \subseteq SeqToSet(p.vnew)
-  /\ SeqToSet(p.vnew) \subseteq Started \cup InFlight
+  /\ SeqToSet(p.vnew) \subseteq Started \cup InFlight \cup AfterHidden
 
 TExpress == Ev("Express") /\ (Express(Tr[l].t, Tr[l].defer) \/ (~Tr[l].defer /\ ExpressNow(Tr[l].t))) /\ PostOk
 TAwait == Ev("Await") /\ Await(Tr[l].e) /\ PostOk
 TExpressDown == Ev("ExpressDown") /\ ExpressDown(Tr[l].t) /\ PostOk
-TRecvData == Ev("RecvData") /\ RecvDataX(Tr[l].d, Tr[l].env, SeqToSet(Tr[l].x)) /\ PostOk
+TRecvData == Ev("RecvData") /\ ~Hidden /\ RecvDataX(Tr[l].d, Tr[l].env, SeqToSet(Tr[l].x)) /\ PostOk
+TRecvDataHidden == Ev("RecvData") /\ Hidden /\ RecvDataX(Tr[l].d, Tr[l].env, {})
 TValFinish == Ev("ValFinish") /\ (ValFinish(Tr[l].e, Tr[l].v) \/ LateFinish(Tr[l].e, Tr[l].v)) /\ PostOk
 \* a verdict delivered to nobody (the validator invocation was cancelled with its caller): stutter
 TValNobody == Ev("ValFinish") /\ vrun[Tr[l].e] = 0 /\ UNCHANGED vars /\ PostOk
@@ -66,7 +74,7 @@ TConnect == Ev("Connect") /\ Connect /\ PostOk
 TRecvNack == Ev("RecvNack") /\ RecvNackX(Tr[l].t, Tr[l].r, Tr[l].env, SeqToSet(Tr[l].x)) /\ PostOk
 TRecvJunk == Ev("RecvJunk") /\ RecvJunk("junk") /\ PostOk
 
-TNext == \/ TExpress \/ TAwait \/ TExpressDown \/ TRecvData \/ TValFinish \/ TValNobody \/ TFire \/ TFireNone
+TNext == \/ TExpress \/ TAwait \/ TExpressDown \/ TRecvData \/ TRecvDataHidden \/ TValFinish \/ TValNobody \/ TFire \/ TFireNone
          \/ TTick \/ TJump \/ TCancel \/ TCancelDone \/ TShutdown \/ TConnect \/ TRecvNack \/ TRecvJunk
 TSpec == TInit /\ [][TNext]_tvars
 
